@@ -787,6 +787,12 @@ def run_conc(prop, tier, seed, t0):
         path = replay_file('C12', sid, by_id.get(sid, []), vs, 'concurrent segment: re-run with build/conc-*/drv_conc <this file> out.ndjson <seed>; schedules are sampled')
         out_lines.append('VIOLATION property=C12 replay=%s' % path); nviol += 1
     nviol += max(0, len(by_seg) - 10)
+    # the repository's own threading stress test (thread_terror.cpp) under ThreadSanitizer: 13 threads creating mocks,
+    # placing ALLOW_CALLs and calling concurrently; its conservation law (calls handled == values returned) is asserted by the program
+    tt = run_thread_terror(work)
+    if tt.get('violated'):
+        path = os.path.join(rp, 'C12-thread_terror.txt'); open(path, 'w').write(tt['output'])
+        out_lines.append('VIOLATION property=C12 replay=%s' % path); nviol += 1
     mc = run_mc('MCConc', tier, work, 'C12')
     if mc.get('error'):
         print('CHECK-ERROR property=C12 model checking: %s' % mc['error'][:2000]); return 2
@@ -803,7 +809,8 @@ def run_conc(prop, tier, seed, t0):
                     'on shared mock + shared sequences; schedule perturbed by random yields in the instrumented lock; one schedule per program per run (sampled, not exhaustive); '
                     'non-trivial = distinct program with >= 2 ops in at least two threads',
                samples=[dict(segment=s, ops=o[:30]) for s, o in segs[:2]], model_checking=mc.get('summary', {}), exhaustive=False,
-               observers='ThreadSanitizer; lock-held flag of every hook event; linearization replay in lock-ticket order through Core!Step by TLC',
+               observers='ThreadSanitizer; lock-held flag of every hook event; linearization replay in lock-ticket order through Core!Step by TLC; the repository\'s thread_terror.cpp under TSan',
+               thread_terror=tt.get('output', tt.get('note', ''))[-200:],
                tree=lib.tree_hash())
     if not mc.get('distinct'):
         cov.pop('states'); cov.pop('transitions')
@@ -814,6 +821,22 @@ def run_conc(prop, tier, seed, t0):
     shutil.rmtree(work, ignore_errors=True)
     log('C12 %s: %d programs, %d events, %d violations, mc=%s, %.0fs' % (tier, len(segs), events, nviol, mc.get('summary'), time.time() - t0))
     return 1 if nviol else 0
+
+def run_thread_terror(work):
+    import subprocess
+    src = os.path.join(lib.REPO, 'test', 'thread_terror.cpp')
+    if not os.path.exists(src):
+        return dict(note='test/thread_terror.cpp not present')
+    exe = os.path.join(work, 'tt_tsan')
+    p = subprocess.run(['g++', '-std=c++14', '-O1', '-g1', '-fsanitize=thread', '-pthread', '-I' + lib.INCLUDE, src, '-o', exe],
+                       stdout=subprocess.PIPE, stderr=subprocess.STDOUT, text=True)
+    if p.returncode != 0:
+        return dict(note='thread_terror does not build: ' + p.stdout[-300:])
+    env = dict(os.environ); env.update(TSAN_ENV)
+    q = subprocess.run(['timeout', '600', exe], env=env, stdout=subprocess.PIPE, stderr=subprocess.STDOUT, text=True)
+    if q.returncode != 0:
+        return dict(violated=True, output='thread_terror under ThreadSanitizer: exit %d\n%s' % (q.returncode, q.stdout[-6000:]))
+    return dict(ok=True, output=q.stdout[-300:])
 
 def fixed_conc_segments():
     d = os.path.join(lib.HARNESS, 'witness')
